@@ -85,7 +85,7 @@ theorem finished_iff (cfg : RCfg) (evs : List Ev) (sends : List Bool) (backs : L
           · left; exact h
           · right; simp [h]
 
-example : ∃ s, TS.run (step? ⟨1, 1, 0, 10, true⟩) (init ⟨1, 1, 0, 10, true⟩) [.add ev1 0, .sealB, .sendStart 0] = some s ∧
+example : ∃ s, TS.run (step? ⟨1, 1, 0, 10, true⟩) (init ⟨1, 1, 0, 10, true⟩) [.add ev1 0 0, .sealB, .sendStart 0] = some s ∧
     step? ⟨1, 1, 0, 10, true⟩ s (.commit 0) = none := ⟨_, rfl, by decide⟩
 
 /-! ## exhaustion -/
